@@ -81,11 +81,11 @@ def menus(tier):
             "monthly": [None] + subsets(MONTH_DAYS[tk], kd),
             "yearly": [None] + subsets(YEAR_DAYS[tk], kd),
         },
-        "hours_small": [None] + subsets([0, 9, 13, 22, 23] if thorough else [0, 13, 22], 3),
+        "hours_small": [None] + subsets([0, 9, 13, 22, 23] if thorough else [0, 22], 3),
         "hours_full": [None] + (subsets(range(24), 3) if thorough
                                 else subsets(range(24), 1) + subsets([0, 9, 13, 22, 23], 3, 2)),
         "freq_volume": 2.5,
-        "daily_freq_volumes": [2.5, 100],
+        "daily_freq_volumes": [2.5, 100] if thorough else [2.5],
         "daily_volumes": [100, 7.0],
     }
     return m
@@ -247,8 +247,7 @@ class Case:
 
     def fail(self, clause, detail, **extra):
         sig = {"helper": self.task["helper"], "clause": clause, "frequency": self.task.get("frequency", "-"),
-               "start_at_midnight": ("default" if self.task["start"] is None
-                                     else "yes" if (self.start.hour, self.start.minute) == (0, 0) else "no")}
+               "start_at_midnight": "yes" if (self.start.hour, self.start.minute) == (0, 0) else "no"}
         sig.update(extra)
         self.out["violations"].append({"sig": sig, "detail": detail, "case": self.single(),
                                        "size": max(1, self.n) + len(repr(self.item))})
